@@ -7,3 +7,7 @@ pub(crate) fn verif_float_cmp(l: f64, r: f64) -> Ordering {
 pub(crate) fn verif_float_eq(l: f64, r: f64) -> bool {
     float_eq(l, r)
 }
+#[cfg(kani)]
+pub(crate) fn verif_int_or_big<const N: usize>(i: Option<isize>, x: [isize; N], f: fn([BigInt; N]) -> BigInt) -> Num {
+    int_or_big(i, x, f)
+}
